@@ -17,6 +17,9 @@ pub struct Case {
     pub table_cap: Option<u16>,
     pub ops: Vec<SOp>,
     pub checkpoints: Vec<u16>,
+    /// Some((total leaves, seed)): the vtree has `total` leaves and the oracle's variables are `vt.k` of them
+    #[serde(default)]
+    pub embed: Option<(u8, u64)>,
 }
 
 pub struct Hist;
@@ -46,11 +49,34 @@ pub fn make_builder<'a>(vt: &VtreeCase, compress: bool, cap: Option<u16>) -> Com
     b
 }
 
+/// the vtree the builder is made for, and the labels of the oracle's variables if they are embedded in a larger one
+pub fn effective_vtree(case: &Case) -> (VtreeCase, Option<Vec<usize>>) {
+    match case.embed {
+        Some((total, seed)) if case.vt.contiguous() => {
+            let (big, labels) = embed_vtree(&case.vt, total, seed);
+            (big, Some(labels))
+        }
+        _ => (case.vt.clone(), None),
+    }
+}
+
 pub fn run_case(case: &Case, st: &mut Stats) -> CaseResult {
-    let b = make_builder(&case.vt, case.compress, case.table_cap);
-    let shape = case.vt.shape();
+    let (vt, emb) = effective_vtree(case);
+    let b = make_builder(&vt, case.compress, case.table_cap);
+    let shape = vt.shape();
     let info = ShapeInfo::new(&shape);
-    let mut run = SddRun::new(&b, shape.leaves());
+    let mut run = match emb {
+        Some(labels) => {
+            st.bump("case.embedded_in_a_larger_vtree");
+            st.bump(match vt.k {
+                0..=16 => "case.embedded.leaves_9_16",
+                17..=64 => "case.embedded.leaves_17_64",
+                _ => "case.embedded.leaves_65_120",
+            });
+            SddRun::new_embedded(&b, labels)
+        }
+        None => SddRun::new(&b, shape.leaves()),
+    };
     let cps: BTreeSet<usize> = if case.ops.is_empty() {
         BTreeSet::new()
     } else {
@@ -64,6 +90,12 @@ pub fn run_case(case: &Case, st: &mut Stats) -> CaseResult {
                 st.bump(&format!("op.{}", out.kind));
                 let (p, t) = run.pool[out.idx];
                 let got = sdd_tt(p);
+                if let Some(l) = take_foreign_label() {
+                    return fail(
+                        &format!("C03/wrong-function:{}", out.kind),
+                        format!("op #{} {:?} on pool entries {:?}: the returned SDD mentions variable {} which none of its operands mentions", i, op, out.args, l),
+                    );
+                }
                 ensure!(
                     got == t,
                     format!("C03/wrong-function:{}", out.kind),
@@ -153,8 +185,10 @@ pub fn case_strategy(max_ops: usize, rebuild: bool) -> BoxedStrategy<Case> {
         prop_oneof![9 => on.boxed(), 3 => off.boxed(), 1 => wide.boxed(), 1 => sparse.boxed()],
         prop_oneof![2 => Just(None), 6 => (1u16..=32).prop_map(Some)],
         proptest::collection::vec(any::<u16>(), 3),
+        embed_strategy(),
     )
-        .prop_map(|((vt, compress, ops), table_cap, checkpoints)| Case {
+        .prop_map(|((vt, compress, ops), table_cap, checkpoints, embed)| Case {
+            embed: if compress && vt.contiguous() { embed } else { None },
             vt,
             compress,
             table_cap,
@@ -164,10 +198,19 @@ pub fn case_strategy(max_ops: usize, rebuild: bool) -> BoxedStrategy<Case> {
         .boxed()
 }
 
+/// one case in six: the vtree gets 9..120 leaves of which the case's own leaves are the oracle's variables
+pub fn embed_strategy() -> BoxedStrategy<Option<(u8, u64)>> {
+    prop_oneof![
+        5 => Just(None),
+        1 => (prop_oneof![3 => 9u8..=16, 3 => 17u8..=64, 1 => 65u8..=120], any::<u64>()).prop_map(Some),
+    ]
+    .boxed()
+}
+
 impl SubCheckT for Hist {
     type Case = Case;
     const NAME: &'static str = "history";
-    const RULE: &'static str = "random vtree over 1..8 variables (right-linear, left-linear, balanced, random splits, wide root; random leaf order; a family with non-contiguous labels over <=3 leaves) x compression on (<=8 variables) / off (<=4 variables, <=24 ops) x unique tables default or 1..32 slots x <=40 operations (literals, not, and, or, xor, iff, ite, condition, exists, compose, and dense functions given by a whole random truth table and built by Shannon expansion, so that decision nodes with >20 elements occur): every returned SDD is read element by element (prime/sub pairs, binary nodes, complement bits) into a truth table and compared with the oracle; the pool is re-read at 3 checkpoints and at the end. Non-trivial: and/or applications with a decision-node operand and a non-constant second operand in >=2 of the four vtree relations (same node, left descendant, right descendant, independent), the relation being computed from the vtree shape";
+    const RULE: &'static str = "random vtree over 1..8 variables, in one case of six (compression on) embedded at random leaves of a vtree with 9..120 leaves of the same shape family (right-linear, left-linear, balanced, random splits, wide root; random leaf order; a family with non-contiguous labels over <=3 leaves) x compression on (<=8 variables) / off (<=4 variables, <=24 ops) x unique tables default or 1..32 slots x <=40 operations (literals, not, and, or, xor, iff, ite, condition, exists, compose, and dense functions given by a whole random truth table and built by Shannon expansion, so that decision nodes with >20 elements occur): every returned SDD is read element by element (prime/sub pairs, binary nodes, complement bits) into a truth table and compared with the oracle; the pool is re-read at 3 checkpoints and at the end. Non-trivial: and/or applications with a decision-node operand and a non-constant second operand in >=2 of the four vtree relations (same node, left descendant, right descendant, independent), the relation being computed from the vtree shape";
     fn cases(tier: Tier) -> u32 {
         tier.pick(20_000, 250_000)
     }
@@ -185,7 +228,7 @@ pub fn property() -> Property {
         subs: vec![sub::<Hist>()],
         fuzz: vec![FuzzSpec { target: "sdd_ops", runs: 6000, max_len: 300 }],
         assumptions: vec![
-            "functions over <= 8 variables, <= 40 operations per history",
+            "functions of <= 8 variables (in one case of six the vtree has 9..120 leaves, of which <= 8 are used), <= 40 operations per history",
             "the SDD walker reads SddPtr variants, BinarySDD accessors and SddOr::iter(); truth-table oracle as in C01",
         ],
         nt_floor_percent: 10,
